@@ -84,3 +84,71 @@ def count_nontrivial(vals):
     """a value list is non-trivial when it has a finite value and is not constant"""
     fin = [v for v in vals if v not in (float('inf'), -float('inf'))]
     return bool(fin) and len(set(vals)) > 1
+
+
+# ---------------------------------------------------------------------------------------------------
+# dense time
+
+DENSE_TICK = 0.25
+
+
+def dense_bounds(lo, hi, sp):
+    """bounds are kept in quarter time units"""
+    from fractions import Fraction
+    return '[' + sg.fmt_num(Fraction(lo, 4)) + sp.sep() + sg.fmt_num(Fraction(hi, 4)) + ']'
+
+
+def dense_text(ast, sp=None):
+    return 'out = ' + sg.to_text(ast, sp, dense_bounds) + ';'
+
+
+def const_only_operator(ast):
+    """a temporal operator all of whose operands are constant-only (known finding F14c)"""
+    for x in sg.walk(ast):
+        ch = sg.children(x)
+        if x[0] in sg.TEMPORAL and ch and not any(sg.has_var(c) for c in ch):
+            return True
+    return False
+
+
+def bounded_op_nonzero_start(ast, signals):
+    """a bounded temporal operator whose operand's domain does not start at time 0 (known finding F14a)"""
+    for x in sg.walk(ast):
+        if x[0] in sg.TUN + sg.TBIN:
+            for c in sg.children(x):
+                vs = sg.vars_of(c)
+                if vs and max(signals[v][0][0] for v in vs) != 0:
+                    return True
+    return False
+
+
+def shrink_dense(sc, extra=None):
+    """generic candidates for scenarios {'ast', 'text', 'vars', 'signals'}"""
+    sig = sc['signals']
+    if extra is not None:
+        for c in extra(sc):
+            yield c
+    for v in sorted(sig):
+        n = len(sig[v])
+        for m in (1, n // 2, n - 1):
+            if 1 <= m < n:
+                c = copy.deepcopy(sc)
+                c['signals'][v] = sig[v][:m]
+                yield c
+        for i in range(1, n - 1):
+            c = copy.deepcopy(sc)
+            del c['signals'][v][i]
+            yield c
+    for a2 in sg.shrink_candidates(sc['ast']):
+        c = copy.deepcopy(sc)
+        c['ast'] = a2
+        c['text'] = None
+        yield c
+    for v in sorted(sig):
+        for i, (t, x) in enumerate(sig[v]):
+            for y in (0.0, 1.0, -1.0):
+                if x != y and abs(y) <= abs(x):
+                    c = copy.deepcopy(sc)
+                    c['signals'][v][i][1] = y
+                    yield c
+                    break
